@@ -1,6 +1,7 @@
 """C16 -- read/write sets reach every sub-expression; MatchExpr discriminates on
 every non-expression field that equality compares."""
 import ast
+import os
 
 from ..core import AnalysisError, where, norm
 from ..fieldmatrix import Matrix, MethodInfo, NODE_CLASSES, loop_bindings
@@ -208,6 +209,13 @@ def run(ctx, report):
     R4 = report.rule('C16.D4', 'node equality is exact (a repeated wildcard is checked with ==, read sets are Python sets of nodes): shared with C15.D1', floor=8)
     from .c15 import eq_rule
     eq_rule(ctx, R4)
+    R6 = report.rule('C16.D6', 'what get_r / get_expr_ids / MatchExpr and their helpers keep on an expression node between calls is computed from that node only: a value '
+                     'memoised on a pattern or on an expression never depends on another argument of the call (the wildcard list, mem_read); shared with C12.D17', floor=1)
+    from .c12 import cache_key_rule
+    cache_key_rule(R6, [mod])
+    R7 = report.rule('C16.D7', 'matching is a function of (expression, pattern, wildcards): MatchExpr, interpreted with the node classes of expression.py, gives on a pattern object '
+                     'that was matched before - with another wildcard list, against another expression - the answer it gives on a freshly built pattern', floor=10)
+    match_history_rule(ctx, R7, mod)
     R2 = report.rule('C16.D2', 'MatchExpr discriminates per node class', floor=7)
     fn = mod.func('MatchExpr')
     ps = [x.arg for x in fn.args.args]
@@ -425,6 +433,57 @@ def match_eval_rule(ctx, R, mod):
             Mem(wa), Mem(wa, 16), Mem(wa, 32, fs), Mem(wa, 32, wb), Mem(x, 32, wb), Sl(wa, 0, 8), Sl(wa, 8, 16), Sl(wa, 0, 16), Cond(wa, wb, z), Cond(wa, wb, wb), Cond(wa, wa, wb),
             Comp((wa, 0, 8), (wb, 8, 32)), Comp((wa, 0, 16), (wb, 16, 32)), Comp((wa, 0, 8), (wb, 8, 24)), Comp((wa, 0, 8), (wb, 4, 32)), Comp((wa, 0, 8)), Comp((Sl(wa, 0, 8), 0, 8), (Sl(wa, 0, 24), 8, 32)), Op('+', Mem(wa), wb), Mem(Op('+', wa, wb)),
             Cond(Op('-', wa), Op('-', wa, wb), wb), Aff(wa, Op('+', wb, Int(1))), Aff(Mem(wa), wb)]
+    def to_se(t):
+        from .. import simpeval as SE
+        k, a = t.__dict__['_kind'], t.__dict__['_attrs']
+        if k == 'Id':
+            return SE.ExprId(a['name'], a['size'])
+        if k == 'Int':
+            return SE.C(a['arg'][1], int(a['arg'][0][1:]))
+        if k == 'Mem':
+            return SE.ExprMem(to_se(a['arg']), a['size'], to_se(a['segm']) if isinstance(a['segm'], MBase) else a['segm'])
+        if k == 'Op':
+            return SE.Op(a['op'], *[to_se(c_) for c_ in a['args']])
+        if k == 'Slice':
+            return SE.Sl(to_se(a['arg']), a['start'], a['stop'])
+        if k == 'Cond':
+            return SE.ExprCond(to_se(a['cond']), to_se(a['src1']), to_se(a['src2']))
+        if k == 'Compose':
+            return SE.ExprCompose([(to_se(p[0]), p[1], p[2]) for p in a['args']])
+        return SE.ExprAff(to_se(a['dst']), to_se(a['src']))
+
+    def from_se(t):
+        k = t.KIND
+        if k == 'Id':
+            return Id(t.f('name'), t.f('size'))
+        if k == 'Int':
+            v_ = t.f('arg')
+            return Int(int(v_), v_.size)
+        if k == 'Mem':
+            sg = t.f('segm')
+            return Mem(from_se(t.f('arg')), t.f('size'), from_se(sg) if hasattr(sg, 'KIND') else sg)
+        if k == 'Op':
+            return Op(t.f('op'), *[from_se(c_) for c_ in t.f('args')])
+        if k == 'Slice':
+            return Sl(from_se(t.f('arg')), t.f('start'), t.f('stop'))
+        if k == 'Cond':
+            return Cond(from_se(t.f('cond')), from_se(t.f('src1')), from_se(t.f('src2')))
+        if k == 'Compose':
+            return Comp(*[(from_se(p[0]), p[1], p[2]) for p in t.f('args')])
+        return Aff(from_se(t.f('dst')), from_se(t.f('src')))
+
+    def world_match(e, m):
+        from .. import exprobj
+        W = exprobj.world(ctx)
+        try:
+            st_, v_ = W.call('MatchExpr', W.from_native(to_se(e)), W.from_native(to_se(m)), [W.from_native(to_se(w_)) for w_ in tks], {})
+        except PyRaise as ex_:
+            return 'raises', ex_.exc_name
+        if st_ != 'ok':
+            return st_, v_
+        if isinstance(v_, dict):
+            return 'ok', dict((from_se(W.to_native(k_)), from_se(W.to_native(x_))) for k_, x_ in v_.items())
+        return 'ok', v_
     scope = dict(classes)
     scope['Expr'] = MBase
     for fname_, fnode_ in mod.funcs.items():
@@ -441,10 +500,34 @@ def match_eval_rule(ctx, R, mod):
                 bad.setdefault(('raises', ex.exc_name), (e, m, None))
                 continue
             except NotConst as ex:
-                if str(ex).startswith('name ') or 'expression statement' in str(ex):
-                    bad.setdefault(('raises', 'NameError'), (e, m, None))
+                msg_ = str(ex)
+                bound_ = None
+                if msg_.startswith('name '):
+                    # a name no statement of the module binds is a NameError of the analysed code
+                    nm_ = msg_.split()[1].strip("'\":,")
+                    bound_ = set()
+                    for st_ in ast.walk(mod.tree):
+                        if isinstance(st_, (ast.FunctionDef, ast.ClassDef)):
+                            bound_.add(st_.name)
+                        elif isinstance(st_, ast.Name) and isinstance(st_.ctx, ast.Store):
+                            bound_.add(st_.id)
+                        elif isinstance(st_, (ast.Import, ast.ImportFrom)):
+                            bound_.update((a_.asname or a_.name).split('.')[0] for a_ in st_.names)
+                        elif isinstance(st_, ast.arg):
+                            bound_.add(st_.arg)
+                    import builtins as _b
+                    if nm_ not in bound_ and not hasattr(_b, nm_):
+                        bad.setdefault(('raises', 'NameError'), (e, m, None))
+                        continue
+                # the data-only model nodes cannot follow this construct (a helper that walks the nodes with their own methods): the pair is evaluated with the node
+                # classes of expression.py interpreted as a whole
+                st_w, out_w = world_match(e, m)
+                if st_w == 'raises':
+                    bad.setdefault(('raises', str(out_w).split('(')[0]), (e, m, None))
                     continue
-                raise AnalysisError('MatchExpr is outside the evaluable subset on (%s, %s): %s' % (show(e), show(m), ex))
+                if st_w != 'ok':
+                    raise AnalysisError('MatchExpr is outside the evaluable subset on (%s, %s): %s / %s' % (show(e), show(m), ex, out_w))
+                out = out_w
             want = ref_match(e, m, {})
             if out is False or out is None:
                 if want is not None and shape(e) == shape(m):
@@ -474,6 +557,74 @@ def match_eval_rule(ctx, R, mod):
     for i_ in range(7):
         R.ok('MatchExpr family part %d' % i_, nontrivial=True)
 
+
+
+def match_history_rule(ctx, R, mod):
+    """History clause of C16: patterns are built once and matched many times.  The whole of expression.py is interpreted (exprobj.World), so whatever MatchExpr and its
+    helpers store on the nodes they walk is really stored.  For every pattern the calls are made in two orders on ONE pattern object and compared with the same call on a
+    fresh object."""
+    from .. import exprobj
+    from .. import simpeval as SE
+    W = exprobj.world(ctx)
+    A = SE.atoms()
+    x, y, z = A['x'], A['y'], A['z']
+    wa, wb = SE.ExprId('a', 32), SE.ExprId('b', 32)
+    Op, Mem, Cond, Sl, C = SE.Op, SE.ExprMem, SE.ExprCond, SE.Sl, SE.C
+    pats = [Op('+', wa, Op('*', wb, y)), Mem(Op('+', wa, wb)), Cond(wa, wb, z), Op('+', wa, wb), Op('^', Mem(wa), Op('+', wb, C(4))), Sl(Op('+', wa, wb), 0, 8),
+            Op('+', Op('*', wb, y), z)]
+    binds = [{'a': Op('+', x, C(1)), 'b': y}, {'a': z, 'b': Mem(x)}]
+    tk_lists = [('a',), ('a', 'b'), ('b',), ('b', 'a')]
+
+    def subst(t, b):
+        if t.KIND == 'Id' and t.f('name') in b:
+            return b[t.f('name')]
+        if t.KIND == 'Op':
+            return Op(t.f('op'), *[subst(a_, b) for a_ in t.f('args')])
+        if t.KIND == 'Mem':
+            return Mem(subst(t.f('arg'), b), t.f('size'), t.f('segm'))
+        if t.KIND == 'Cond':
+            return Cond(subst(t.f('cond'), b), subst(t.f('src1'), b), subst(t.f('src2'), b))
+        if t.KIND == 'Slice':
+            return Sl(subst(t.f('arg'), b), t.f('start'), t.f('stop'))
+        return t
+
+    def norm_out(r):
+        st, v = r
+        if st != 'ok':
+            return (st, str(v))
+        if v is False or v is None:
+            return ('no-match',)
+        if isinstance(v, dict):
+            try:
+                return ('match', tuple(sorted((SE.show(W.to_native(k_)), SE.show(W.to_native(v_))) for k_, v_ in v.items())))
+            except Exception as e_:
+                return ('match-unreadable', type(e_).__name__)
+        return ('other', repr(v)[:40])
+
+    def ask(pobj, e_native, tks):
+        return norm_out(W.call('MatchExpr', W.from_native(e_native), pobj, [W.from_native(SE.ExprId(n_, 32)) for n_ in tks], {}))
+    n = 0
+    for p in pats:
+        for order in (tk_lists, list(reversed(tk_lists))):
+            shared = W.from_native(p)
+            for tks in order:
+                for b in binds:
+                    e_ = subst(p, b)
+                    n += 1
+                    got = ask(shared, e_, tks)
+                    want = ask(W.from_native(p), e_, tks)
+                    inst = 'MatchExpr(%s, %s, [%s]) after %s' % (SE.show(e_), SE.show(p), ', '.join(tks), 'other wildcard lists on the same pattern object')
+                    if got != want:
+                        R.violation(inst, 'match-history:%s' % p.KIND, '%s gives %s; on a freshly built pattern %s: the answer depends on the calls made before with this pattern object' % (inst, got, want),
+                                    where(mod, mod.func('MatchExpr')), witness='MatchExpr(e, p, [a]) then MatchExpr(e, p, [a, b]) on one pattern p')
+                        break
+                else:
+                    continue
+                break
+            else:
+                R.ok('pattern %s, %s order' % (SE.show(p), 'given' if order is tk_lists else 'reversed'), nontrivial=True,
+                     sample='%s matched %d times on one object with 4 wildcard lists: every answer equals the answer of a fresh pattern' % (SE.show(p), len(tk_lists) * len(binds)))
+    R.note('%d calls of MatchExpr interpreted on shared pattern objects' % n)
 
 MUTANTS = [
     ('test-set-eq-shortcut-hoisted', 'miasmx/expression/expression.py', "    if not v in tks:\n        # (a successful match returns the bindings, even when there are none)\n        if e == v:\n            return result\n        return False\n", "    if e == v:\n        return result\n    if not v in tks:\n        return False\n", 'C16.D2'),
